@@ -263,6 +263,46 @@ def run(rep, tier, rng):
                         dict(base, op=f"{opn} on {snm}", py={"copy": "a.copy()", "neg": "-a", "normalized": "a.normalized()", "length": "a.length()",
                                                            "invert-STwo": "~a", "ptr+ptr": "a + b", "ptr*ptr": "a * b", "__rmul__": "b * a"}[opn],
                              pyab=pyab, obs=repr(o)[:300]), ("special", snm, opn, al, d))
+            # ---- division by zero is an error for every dividend, the zero vector included (0 / 0 is not a number) ----------
+            for zvoc in (None, 0):
+                zp = mk([0] * d, zvoc, "Z")
+                for kn, val in (("int", 0), ("float", 0.0), ("np.float64", np.float64(0.0)), ("np.int64", np.int64(0))):
+                    with np.errstate(all="ignore"):
+                        o = c.observe(lambda: zp / val)
+                    add(f"check_sp_bin {cdims} BDivide {cq([0] * d, zvoc)} (onum {c.z(0)}) false (1%Z, 1000000000%Z) {obs_t(o, enc_ptr)}",
+                        {"alg": al, "d": d, "x": [0] * d, "y": [0] * d, "va": zvoc, "vb": None, "named": True, "op": f"zero-vector/{kn} zero",
+                         "py": f"a / {kn}(0)", "pyab": f"a = SemanticPointer(np.zeros({d}), vocab={'None' if zvoc is None else 'vocs[0]'}, algebra={'A' if zvoc is None else 'None'}); b = None",
+                         "obs": repr(o)[:300], "num": repr(val)}, ("zero-div", kn, al, d, zvoc))
+            # ---- a vocabulary-less pointer stays what it is: combined with one vocabulary, then with another ------------
+            xh, yh, y2 = algs.rand_vec(rng, d, -4, 4), algs.rand_vec(rng, d, -4, 4), algs.rand_vec(rng, d, -4, 4)
+            ph, q0, q1, ph2 = mk(xh, None, "P"), mk(yh, 0, "A"), mk(y2, 1, "C"), mk(y2, None, "Q")
+            tolh = algs.tol_for(xh, yh, d=d)
+            baseh = {"alg": al, "d": d, "x": xh, "y": y2, "va": None, "vb": 1, "named": True}
+            pyh = (f"p = SemanticPointer(np.array({xh}, float), algebra=A); a = SemanticPointer(np.array({yh}, float), vocab=vocs[0]); "
+                   f"b = SemanticPointer(np.array({y2}, float), vocab=vocs[1]); _ = p + a; _ = p * a; _ = p.dot(a); a = p")
+            for first in (lambda: ph + q0, lambda: ph * q0, lambda: ph.dot(q0), lambda: q0 - ph):
+                c.observe(first)
+            for opn, cop, fn in [("+", "BAdd", lambda: ph + q1), ("*", "BMul", lambda: ph * q1), ("-", "BSub", lambda: ph - q1)]:
+                o = c.observe(fn)
+                add(f"check_sp_bin {cdims} {cop} {cq(xh, None)} (optr {cq(y2, 1)}) false {tolh} {obs_t(o, enc_ptr)}",
+                    dict(baseh, op=f"ptr{opn}ptr after the vocabulary-less operand met another vocabulary", py=f"a {opn} b", pyab=pyh, obs=repr(o)[:300]),
+                    ("history2", opn, al, d))
+            o = c.observe(lambda: ph + ph2)
+            add(f"check_sp_bin {cdims} BAdd {cq(xh, None)} (optr {cq(y2, None)}) false {tolh} {obs_t(o, enc_ptr)}",
+                dict(baseh, vb=None, op="ptr+ptr of two vocabulary-less pointers after one of them met vocabularies", py="a + SemanticPointer(b.v, algebra=A)", pyab=pyh, obs=repr(o)[:300]),
+                ("history2", "novocab", al, d))
+            # ---- dot / @ with a matrix operand: v . M in that order (elementary formula on the operands in operand order) -----
+            Mi = [[rng.randint(-3, 3) for _ in range(3)] for _ in range(d)]
+            M = np.array(Mi, dtype=float)
+            want = np.array(xh, float) @ M
+            for opn, fn in (("p.dot(M)", lambda: ph.dot(M)), ("p @ M", lambda: ph @ M)):
+                o = c.outcome(fn)
+                rep.case(("dot-matrix", opn, al, d))
+                rep.count("dot-with-2d-array")
+                if o[0] != "ok" or np.shape(o[1]) != (3,) or not np.allclose(o[1], want, atol=1e-9):
+                    rep.violation(f"SemanticPointer {opn} with a ({d}, 3) array is not v . M ({al}): {o[0] if o[0] != 'ok' else np.asarray(o[1]).tolist()}",
+                                  {"case": {"alg": al, "d": d, "v": xh, "M": Mi}, "expected": want.tolist(),
+                                   "python": PRE + f"p = SemanticPointer(np.array({xh}, float)); M = np.array({Mi}, float)\nassert np.allclose({opn}, p.v @ M)\n"})
             # ---- operands of unequal length never combine (also when one has length 1, which NumPy would broadcast) -----
             if d > 1:
                 x = algs.rand_vec(rng, d, 1, 4)
